@@ -25,7 +25,7 @@ import time
 import traceback
 
 FAKE_PID0 = 5_000_000
-ABNORMAL = [-9, -11, -6, -7, -8, -4, 1, 2, 70, 255]
+ABNORMAL = [-9, -11, -6, -7, -8, -4, 1, 2, 70, 255, -40, -64]   # (40, 64: real-time signals, no name)
 CLEANISH = [0, 155]
 
 
@@ -185,6 +185,7 @@ class Sim:
         self.clock = VClock()
         self.step_no = 0
         self.hist = []            # compact action log
+        self.keep_alive = []
         self.workers = []
         self.by_pid = {}
         self.jobs = {}
@@ -464,7 +465,7 @@ class Sim:
 
     # the outcome must be justified by an event of the same job
     def check_outcome(self, j, o):
-        from billiard.common import human_status
+        from vmon.hstatus import human_status, names_status
         kind = o[0]
         if j.discarded:
             return
@@ -508,7 +509,9 @@ class Sim:
                 legal = {human_status(self.by_pid[p].popen.returncode)
                          for p in j.all_owners()
                          if not self.by_pid[p].alive}
-                if not any(s in o[1] for s in legal) or ('Job: %d' % j.jid) not in o[1]:
+                if not any(names_status(o[1], self.by_pid[p].popen.returncode)
+                           for p in j.all_owners() if not self.by_pid[p].alive) \
+                        or ('Job: %d' % j.jid) not in o[1]:
                     self.viol({'C04'}, 'loss_message_wrong_status_or_job',
                               {'job_kind': j.kind, 'ack_after_reap': j.ack_after_reap},
                               job=j.jid, msg=o[1],
@@ -760,12 +763,28 @@ class Sim:
         else:
             T = rng.choice([None, 0.5, 2.5])
             f = self.pool.imap if kind == 'imap' else self.pool.imap_unordered
-            h = f(_never_called, send_items, 1, lost_worker_timeout=T)
-            nparts = n
+            cs = 1
+            if raise_at is None and unpicklable_at is None and n >= 2 and rng.random() < 0.3:
+                cs = rng.choice([2, 3])
+            if cs == 1:
+                h = f(_never_called, send_items, 1, lost_worker_timeout=T)
+            else:
+                # chunked: the caller gets a generator over the chunks of the real
+                # iterator; the model watches that iterator (one item = one chunk)
+                known = set(self.pool._cache)
+                gen = f(_never_called, send_items, cs, lost_worker_timeout=T)
+                fresh = [k for k in self.pool._cache if k not in known]
+                if gen is None or len(fresh) != 1:
+                    raise HarnessError('chunked imap handle not found: %r' % (fresh,))
+                h = self.pool._cache[fresh[0]]
+                self.keep_alive.append(gen)
+                self.stat('submit_chunked_imap')
+            nparts = n // cs + bool(n % cs)
             if raise_at is not None:
                 j.send_failed.add(n)          # the input failed after n items
                 self.stat('raising_input_iterables')
-            j.chunk = 1
+            j.chunk = cs
+            # the grace period the caller asked for (not what the handle says)
             j.T = T or p.get('T', 3.0)
         if h is None:
             return None
@@ -781,6 +800,8 @@ class Sim:
             elif kind == 'map':
                 j.outcomes[i] = ('ok', ['r:' + x for x in chunk_items])
                 vals.extend(j.outcomes[i][1])
+            elif j.chunk > 1:
+                j.outcomes[i] = ('ok', ['r:' + x for x in chunk_items])
             else:
                 j.outcomes[i] = ('ok', 'r:' + chunk_items[0])
         j.expected_value = vals
@@ -1151,7 +1172,7 @@ class Sim:
         """imap: which parts the loss items seen by the consumer stand for.  An
         ordered iterator yields exactly one item per part, so position k is
         part k; an unordered one names only the exit status."""
-        from billiard.common import human_status
+        from vmon.hstatus import human_status, names_status
         if j.kind == 'imap':
             for k, y in enumerate(j.yielded):
                 if y[0] in ('lost', 'term') and k in j.parts:
@@ -1163,8 +1184,8 @@ class Sim:
             cand = self.dead_parts(j)
             if not cand:
                 break
-            pick = next((i for i in cand if human_status(
-                self.by_pid[j.parts[i]['ack_proc'][0]].popen.returncode) in y[1]), cand[0])
+            pick = next((i for i in cand if names_status(
+                y[1], self.by_pid[j.parts[i]['ack_proc'][0]].popen.returncode)), cand[0])
             j.parts[pick]['lost_done'] = True
 
     def is_resolved(self, j):
